@@ -79,10 +79,10 @@ def check_pattern(E, split_posterior=False):
 def engine_error_log_case(col, minimize, codes=(0, 1, 0, 2, 1)):
     """a real engine run with scripted error codes and THINNED warmup / posterior epochs, with and without minimize_transition_infos: the error
     log and the summary count every transition that returned a code - thinning of the stored samples never thins the error bookkeeping;
-    also with bit-flag style codes >= 256 (a user kernel's error book)"""
+    also with bit-flag style codes >= 256 and with NEGATIVE codes (a user kernel's error book; -1 = kernel skipped in the Kernel protocol)"""
     sched = [(0, 1, 1), (3, 8, 4), (4, 12, 3)]
     codes = list(codes)
-    RecordingKernel.error_book.update({256: "flag 8", 257: "flag 8 and flag 0"})
+    RecordingKernel.error_book.update({256: "flag 8", 257: "flag 8 and flag 0", -1: "kernel skipped", -7: "negative user code"})
     eng = make_engine(sched, 4, chains=2, kernels=1, codes=[codes], minimize_transition_infos=minimize)
     eng.sample_all_epochs()
     res = eng.get_results()
@@ -262,7 +262,8 @@ def bounded(tier, seed):
         many_chunks_case(col)
     except Exception as e:
         col.add({"sig": f"native::errors::exception::{type(e).__name__}", "what": f"{type(e).__name__}: {str(e)[:200]}", "input": {"scenario": "many chunks"}})
-    for mini, cds in ((False, (0, 1, 0, 2, 1)), (True, (0, 1, 0, 2, 1)), (True, (0, 256, 1, 257, 0)), (False, (0, 256, 1, 257, 0))):
+    # (negative codes are codes like any other: the Kernel protocol itself documents -1 for a skipped kernel)
+    for mini, cds in ((False, (0, 1, 0, 2, 1)), (True, (0, 1, 0, 2, 1)), (True, (0, 256, 1, 257, 0)), (False, (0, 256, 1, 257, 0)), (False, (0, -1, 0, -7, -1)), (True, (-1, 0, 2, 0, -1))):
         try:
             engine_error_log_case(col, mini, cds)
         except Exception as e:
